@@ -425,25 +425,6 @@ func main() {
 			}
 		}
 	}
-	// probe outside the case stream (the model renders a name as one heading line): a NAME with a
-	// line break - legal for the API - followed by block syntax adds a section
-	if only < 0 {
-		pn := a.NewNetwork("probe")
-		pb := a.NewBus("first line\n## second line")
-		_ = pn.AddBus(pb)
-		if text, _, pan := exportMD(pn); pan == nil {
-			h2 := 0
-			for _, b := range commonMark(parseMarkdown(text)) {
-				if b.Kind == 'H' && b.Level == 2 {
-					h2++
-				}
-			}
-			kinds["probe-name-with-line-break"]++
-			if h2 != 4 {
-				fails["name-with-line-break-adds-heading"] = fmt.Sprintf("%d ## a bus named %q yields %d level-2 headings, want 4 (1 bus + 3 appendices)", n, pb.Name(), h2)
-			}
-		}
-	}
 	fmt.Fprintf(w, "END %d\n", written)
 	w.Flush()
 	f.Close()
